@@ -1,5 +1,7 @@
 import RSocketModel.Props.C02
 import RSocketModel.Errors
+import RSocketModel.Builders
+import RSocketModel.Gen.Errors
 /-!
 # C02 / C12 — a failure answered on a stream arrives as that failure
 
@@ -9,6 +11,18 @@ requester's application is handed the same error code and the same text, on that
 -/
 namespace RSocketModel.Errors
 open RSocketModel.Codec
+
+/-- **`toErrorFrame` is the source's `exception_to_error_frame`**: the frame object the regenerated
+function (`Gen/Errors.lean`, from the AST of `rsocket/frame.py` on every run) builds for a protocol
+error (its code, its text or `None`) or for any other exception (`str(exception)`), read by the
+encoder, is the hand-written rule's frame. -/
+theorem c02_error_frame_matches_source (sid : Nat) (e : Exc) :
+    Builders.interp (match e with
+      | .protocol c t => Gen.exception_to_error_frame (.nat sid) true (.nat c) (Builders.ov t) .none
+      | .other t => Gen.exception_to_error_frame (.nat sid) false .none .none (.bytes t)) = some (toErrorFrame sid e) := by
+  cases e with
+  | protocol c t => cases t <;> rfl
+  | other t => rfl
 
 /-- **error round trip**: for every stream id, every exception with a code of the protocol's table
 (or any non-protocol exception, which travels as APPLICATION_ERROR), the ERROR frame built for it,
